@@ -1,0 +1,15 @@
+//go:build !verif
+
+package sync2
+
+import "sync"
+
+// Verification hooks (see verif_sched_on.go). Without the "verif" build tag they are empty and inlined away.
+
+func verifYield(string)              {}
+func verifMuLock(*sync.Mutex)        {}
+func verifMuUnlocked(*sync.Mutex)    {}
+func verifRWLock(*sync.RWMutex)      {}
+func verifRWUnlocked(*sync.RWMutex)  {}
+func verifRWRLock(*sync.RWMutex)     {}
+func verifRWRUnlocked(*sync.RWMutex) {}
